@@ -129,12 +129,24 @@ FINDINGS = {
     "riscv-neg-inv-overwrite-operand": {"targets": RV, "deny": ["unop:-:*", "unop:~:*"]},
     "rvc-consti32-clui-immediate-truncated": {"targets": ["riscv:rvc"], "const": _clui_truncated},
     "riscv-imm12-patterns-without-lower-bound": {
-        "targets": RV, "opconst": lambda op, ty, v: ty == "i32" and op in "+&|^" and v < -2048},
-    "riscv-subword-arithmetic-not-wrapped": {
-        "targets": RV, "deny": ["binop:[+*-]:[iu]8", "binop:[+*-]:[iu]16", "binop:<<:[iu]8", "binop:<<:[iu]16"]},
+        "targets": RV, "opconst": lambda op, ty, v, side: ty == "i32" and op in "+&|^" and v < -2048},
+    "riscv-subword-values-not-normalised": {
+        "targets": RV, "deny": ["binop:[+*-]:[iu]8", "binop:[+*-]:[iu]16", "binop:<<:[iu]8", "binop:<<:[iu]16",
+                                "cast:[iu]32:[iu]8", "cast:[iu]32:[iu]16", "cast:[iu]16:[iu]8", "cast:ptr:[iu]8",
+                                "cast:ptr:[iu]16"]},
+    "rvc-shift-constant-lhs-operands-swapped": {
+        "targets": ["riscv:rvc"],
+        "opconst": lambda op, ty, v, side: ty == "i32" and op in ("<<", ">>") and side == "lhs" and v < 16},
+    "rvc-signed-shift-right-by-constant-is-logical": {
+        "targets": ["riscv:rvc"],
+        "opconst": lambda op, ty, v, side: ty == "i32" and op == ">>" and side == "rhs" and v < 16},
+    "rvc-caddi-negative-immediate-sign-bit-dropped": {
+        "targets": ["riscv:rvc"], "opconst": lambda op, ty, v, side: ty == "i32" and op == "+" and -32 <= v < 0},
     "riscv-signed-subword-to-unsigned-cast-zero-extends": {
         "targets": RV, "deny": ["cast:i8:u16", "cast:i8:u32", "cast:i16:u32", "cast:i8:ptr", "cast:i16:ptr"]},
     "riscv-frame-offset-beyond-imm12": {"targets": RV, "deny": ["frame:ge1024"]},
+    "x86_64-float-to-int-rounds-to-nearest": {"targets": ["x86_64"], "deny": ["cast:f32:[iu]*", "cast:f64:[iu]*"]},
+    "x86_64-stack-passed-f32-parameter-4-byte-slots": {"targets": ["x86_64"], "deny": ["param:f32:cls[89]", "param:f32:cls1[0-9]"]},
 }
 
 
@@ -175,10 +187,11 @@ def rewrite_constants(m, preds):
                     ins.value = _harmless(ins.ty, ins.value)
                     n += 1
                 elif isinstance(ins, ir.Binop) and ops and ins.ty is not ir.ptr:
-                    for c in (ins.a, ins.b):
+                    for side, c in (("lhs", ins.a), ("rhs", ins.b)):
                         if isinstance(c, ir.Const) and isinstance(c.value, int) \
-                                and any(p(ins.operation, ins.ty.name, c.value) for p in ops):
-                            c.value = _harmless(c.ty, c.value)
+                                and any(p(ins.operation, ins.ty.name, c.value, side) for p in ops):
+                            c.value = _harmless(c.ty, c.value) if ins.operation not in ("<<", ">>") or side == "lhs" \
+                                else 16 + abs(c.value) % 15
                             n += 1
     return n
 
@@ -396,6 +409,9 @@ class Target:
         return objgen.build_object(spec)
 
 
+KINDS = ("none", "i8", "u8", "i16", "u16", "i32", "u32", "i64", "u64", "f32", "f64", "ptr")
+
+
 def type_name(ty):
     from ppci import ir
 
@@ -410,6 +426,10 @@ def externals_of(m):
         if isinstance(e, ir.ExternalSubRoutine):
             ak = type_name(e.argument_types[0]) if e.argument_types else "none"
             rk = type_name(e.return_ty) if isinstance(e, ir.ExternalFunction) else "none"
+            if ak not in KINDS:
+                ak = "ptr"          # blob by value: the bytes are not compared through the trace
+            if rk not in KINDS:
+                rk = "none"
             out.append((e.name, ak, rk, e))
     return out
 
@@ -860,6 +880,8 @@ def irgen_cfg(r, tgt):
                 "cjump:<:%s", "cjump:==:%s", "phi:%s", "callarg:%s", "returns:%s"]
         if t[0] == "f":
             base = [b for b in base if "&" not in b and "^" not in b]
+        if t not in ("i32", "u32"):
+            base.append("cast:i32:%s")
         return cm.avoided({b % t for b in base}, tgt.deny) is None
 
     vals = [t for t in tgt.types if t != "ptr" and usable(t)]
